@@ -106,9 +106,9 @@ def drop_private_driver():
     _DRIVER = None
 
 
-def compare(model, exe, lines):
-    """D.compare against the private driver copy"""
-    rc_c, out_c, err_c = D.run_lines([exe], lines)
+def compare(model, exe, lines, timeout=20):
+    """D.compare against the private driver copy (a run of these harnesses takes milliseconds: 20 s means it hangs)"""
+    rc_c, out_c, err_c = D.run_lines([exe], lines, timeout)
     rc_m, out_m, err_m = D.run_lines([private_driver(), model], lines, 300)
     if rc_m != 0:
         return {"kind": "model-driver-failed", "rc": rc_m, "stderr": err_m[-2000:]}
@@ -308,23 +308,31 @@ def t2_mempool(res, tier, broken):
     import concurrent.futures as cf
     bad = None
     with cf.ThreadPoolExecutor(max_workers=min(C.NCPU, 12)) as ex:
-        for lines, d in zip(jobs, ex.map(one, jobs)):
-            if d is not None and bad is None:
-                bad = (lines, d)
+        for i in range(0, len(jobs), 48):           # in chunks: the first disagreement ends the campaign
+            chunk = jobs[i:i + 48]
+            for lines, d in zip(chunk, ex.map(one, chunk)):
+                if d is not None and bad is None:
+                    bad = (lines, d)
+            if bad:
+                break
     if bad:
         lines, d = bad
+        hangs = d.get("rc") == -999
+        budget = 40 if hangs else 300                # every probe of a hanging implementation costs the full timeout
         # first: does the implementation's own output contradict C15 anywhere on this history (not only at the first
         # point where it differs from the model)?
-        vh = D.violating_history(lines, lambda ls: D.run_lines([exe], ls), mempool_oracle, keep_prefix=1, budget=300)
+        vh = None if hangs else D.violating_history(lines, lambda ls: D.run_lines([exe], ls, 20), mempool_oracle, keep_prefix=1, budget=budget)
         if vh:
             small, why = vh
             d2 = compare("mempool", exe, small) or d
             rc, out_c, err = D.run_lines([exe], small)
         else:
-            small = D.ddmin(lines, lambda ls: compare("mempool", exe, ls) is not None, keep_prefix=1, budget=300)
+            small = D.ddmin(lines, lambda ls: compare("mempool", exe, ls) is not None, keep_prefix=1, budget=budget)
             d2 = compare("mempool", exe, small) or d
-            rc, out_c, err = D.run_lines([exe], small)
-            if rc == 0:
+            rc, out_c, err = D.run_lines([exe], small, 20)
+            if rc == -999:
+                why = "the memory-pool routines do not return (no output within 20 s; a run takes milliseconds)"
+            elif rc == 0:
                 why = mempool_oracle(small, out_c)
             else:
                 why = "implementation aborted (sanitizer / assertion / signal %d): %s" % (rc, err[-800:])
